@@ -98,8 +98,7 @@ def mechanism(ctx):
     # MemTrack_sites.cfg: call sites that differ in ONE component only (same line + a name that extends / is a prefix of the other,
     # same name + next line): the record of a reallocation carries the site of the LAST request
     runs = [("MemTrack_quick.cfg", 3, [0, 1, 3, 4, 5], [5]), ("MemTrack_sites.cfg", 2, [0, 5], [5])] if quick else [
-        ("MemTrack_sites.cfg", 2, [0, 5], [5]),
-        ("MemTrack_quick.cfg", 3, [0, 1, 3, 4, 5], [0, 4, 5]), ("MemTrack_thorough.cfg", 3, [0, 4, 5], [5]),
+        ("MemTrack_quick.cfg", 3, [0, 1, 3, 4, 5], [0, 4, 5]), ("MemTrack_sites.cfg", 2, [0, 5], [5]), ("MemTrack_thorough.cfg", 3, [0, 4, 5], [5]),
         ("MemTrack_levels.cfg", 3, [0, 6], [6]), ("MemTrack_pool4.cfg", 4, [0, 5], [5])]
     walks = (300, 40) if quick else (3000, 80)
     ref = None
